@@ -157,8 +157,10 @@ class Effect:
         # ((fn, node), ...) from the analysed function down to this call
         self.path = path + ((fn, call),)
 
-    def arg(self, pos=None, kw=None):
-        """Atoms of a positional/keyword argument (empty set if absent)."""
+    def arg(self, pos=None, kw=None, shallow=False):
+        """Atoms of a positional/keyword argument (empty set if absent).
+        shallow=True does not look into repository callees (their calls
+        appear as markers only)."""
         e = None
         if pos is not None and 0 <= pos < len(self.call.args) and not any(
                 isinstance(a, ast.Starred) for a in self.call.args[:pos + 1]):
@@ -167,13 +169,18 @@ class Effect:
             e = Q.kwarg(self.call, kw)
         if e is None:
             return set()
+        if shallow:
+            return self.facts.flow.atoms(e, self.fn, self.bind,
+                                         self.facts.flow.max_depth)
         return self.facts.flow.atoms(e, self.fn, self.bind)
 
-    def all_args(self):
+    def all_args(self, shallow=False):
         out = set()
         for a in list(self.call.args) + [k.value for k in
                                          self.call.keywords]:
-            out |= self.facts.flow.atoms(a, self.fn, self.bind)
+            out |= self.facts.flow.atoms(
+                a, self.fn, self.bind,
+                self.facts.flow.max_depth if shallow else 0)
         return out
 
     def texts(self):
@@ -520,6 +527,15 @@ class Facts:
         out = set()
         for t in self.guards(node, fn):
             out |= self.flow.atoms(t, fn, bind)
+            if _depth < 3:
+                for c in ast.walk(t):
+                    if isinstance(c, ast.Call):
+                        callee = self.flow.resolve_call(c, fn)
+                        if callee is not None and callee is not fn:
+                            b = self.flow._bind_args(c, callee, fn, bind, 0,
+                                                     set())
+                            out |= self.return_control(callee, b,
+                                                       _depth + 1)
             if _depth < 4:
                 for nm in ast.walk(t):
                     if isinstance(nm, ast.Name) and isinstance(
@@ -531,17 +547,23 @@ class Facts:
                                                 _seen)
         return out
 
-    def return_control(self, fn, bind=None):
+    def return_control(self, fn, bind=None, _depth=0):
         """Access paths deciding *which* value fn returns: control of every
         return statement plus the tests of conditional expressions inside
         the returned expressions."""
+        key = (fn.fq, self.flow._bkey(bind), _depth)
+        memo = self.__dict__.setdefault('_rc_memo', {})
+        if key in memo:
+            return set(memo[key])
+        memo[key] = frozenset()          # cycle guard
         out = set()
         for r in Q.returns(fn.node):
-            out |= self.control(r, fn, bind)
+            out |= self.control(r, fn, bind, _depth)
             if r.value is not None:
                 for n in ast.walk(r.value):
                     if isinstance(n, ast.IfExp):
                         out |= self.flow.atoms(n.test, fn, bind)
+        memo[key] = frozenset(out)
         return out
 
     def _def_sites(self, name, fn):
@@ -571,17 +593,55 @@ class Facts:
             'In': 'NotIn', 'NotIn': 'In', 'Lt': 'GtE', 'GtE': 'Lt',
             'Gt': 'LtE', 'LtE': 'Gt'}
 
-    def _known_compares(self, t, pos, out):
+    def _predicate_body(self, call, fn, bind):
+        """(expr, callee, bind) when `call` invokes a repository predicate
+        whose body is a single `return <expr>`."""
+        callee = self.flow.resolve_call(call, fn)
+        if callee is None:
+            return None
+        body = [st for st in callee.node.body
+                if not (isinstance(st, ast.Expr) and isinstance(
+                    st.value, ast.Constant))]
+        if len(body) == 1 and isinstance(body[0], ast.Return) and \
+                body[0].value is not None:
+            b = self.flow._bind_args(call, callee, fn, bind, 0, set())
+            return body[0].value, callee, b
+        return None
+
+    def _known_compares(self, t, pos, out, fn=None, bind=None, _d=0):
         """Comparisons whose truth value is known when test t has truth
-        value `pos`."""
+        value `pos` (looking through `not`, and/or where sound, and
+        single-expression predicate helpers)."""
         if isinstance(t, ast.UnaryOp) and isinstance(t.op, ast.Not):
-            self._known_compares(t.operand, not pos, out)
+            self._known_compares(t.operand, not pos, out, fn, bind, _d)
         elif isinstance(t, ast.BoolOp):
             if isinstance(t.op, ast.And) == pos:
                 for v in t.values:
-                    self._known_compares(v, pos, out)
+                    self._known_compares(v, pos, out, fn, bind, _d)
         elif isinstance(t, ast.Compare) and len(t.ops) == 1:
-            out.append((t, pos))
+            out.append((t, pos, fn, bind))
+        elif isinstance(t, ast.Call) and fn is not None and _d < 2:
+            pb = self._predicate_body(t, fn, bind)
+            if pb is not None:
+                self._known_compares(pb[0], pos, out, pb[1], pb[2], _d + 1)
+
+    def guard_truths(self, node, fn):
+        """(leaf test expression, truth value) known when `node` executes:
+        guards with `not` stripped and and/or split where that is sound."""
+        out = []
+
+        def leaves(t, pos):
+            if isinstance(t, ast.UnaryOp) and isinstance(t.op, ast.Not):
+                leaves(t.operand, not pos)
+            elif isinstance(t, ast.BoolOp):
+                if isinstance(t.op, ast.And) == pos:
+                    for v in t.values:
+                        leaves(v, pos)
+            else:
+                out.append((t, pos))
+        for t, pos in self.guards_pol(node, fn):
+            leaves(t, pos)
+        return out
 
     def guard_compares(self, node, fn, bind=None):
         """(operator, left atoms, right atoms) of the comparisons known to
@@ -590,13 +650,13 @@ class Facts:
         out = []
         for t, pos in self.guards_pol(node, fn):
             cs = []
-            self._known_compares(t, pos, cs)
-            for c, p in cs:
+            self._known_compares(t, pos, cs, fn, bind)
+            for c, p, f_, b_ in cs:
                 op = type(c.ops[0]).__name__
                 if not p:
                     op = self._INV.get(op, 'Not' + op)
-                out.append((op, self.flow.atoms(c.left, fn, bind),
-                            self.flow.atoms(c.comparators[0], fn, bind)))
+                out.append((op, self.flow.atoms(c.left, f_, b_),
+                            self.flow.atoms(c.comparators[0], f_, b_)))
         return out
 
     def stores(self, fn, bind=None):
